@@ -37,6 +37,16 @@ const PROGRAMS: &[&str] = &[
     "{\"b\": 1, \"a\": [1, 2]} | keys_unsorted, length, has(\"a\"), contains({\"a\": [1]})",
 ];
 
+/// One value of which every thread holds a handle; these programs restructure it (copy on write).
+const SHARED_VALUE: &str = "{a: 1, b: [2, {c: 3, d: 4, e: 5}], c: \"x\", d: [1], e: {f: 1}}";
+const SHARED_PROGRAMS: &[&str] = &[
+    "(.a |= empty), (.c |= empty)",
+    ".b[1] |= (.c |= empty)",
+    ".a = [.c] | .e.f += 1",
+    "[.[]] | (.[1] |= empty) | length",
+    "(.b |= empty) | keys_unsorted",
+];
+
 fn compile(code: &str) -> F {
     let arena = Arena::default();
     let modules = Loader::new(std::iter::empty()).load(&arena, File { code, path: () }).expect("parse");
@@ -66,10 +76,29 @@ fn main() {
     let count = args.get(2).copied().unwrap_or(PROGRAMS.len()).min(PROGRAMS.len());
     let filters: Arc<Vec<F>> = Arc::new(PROGRAMS[..count].iter().map(|p| compile(p)).collect());
     let alone: Arc<Vec<Vec<String>>> = Arc::new(filters.iter().map(|f| run(f, Val::Null)).collect());
+    // the shared value: built once; alone, each program gets the only handle to a value of its own
+    let mk = compile(SHARED_VALUE);
+    let fresh = || mk.id.run((Ctx::<JustLut<Val>>::new(&mk.lut, Vars::new([])), Val::Null)).next().unwrap().ok().unwrap();
+    let sfilters: Arc<Vec<F>> = Arc::new(SHARED_PROGRAMS.iter().map(|p| compile(&format!("def empty: [] | .[]; {p}"))).collect());
+    let salone: Arc<Vec<Vec<String>>> = Arc::new(sfilters.iter().map(|f| run(f, fresh())).collect());
+    let shared = fresh();
+    let original = format!("{shared}");
     let handles: Vec<_> = (0..threads)
         .map(|t| {
             let (filters, alone) = (filters.clone(), alone.clone());
+            let (sfilters, salone, mine) = (sfilters.clone(), salone.clone(), shared.clone());
             std::thread::spawn(move || {
+                for r in 0..reps {
+                    for k in 0..sfilters.len() {
+                        let i = (k + t + r) % sfilters.len();
+                        let got = run(&sfilters[i], mine.clone());
+                        if got != salone[i] {
+                            println!("MISMATCH program={:?} on a value shared between threads: concurrent={:?} alone={:?}", SHARED_PROGRAMS[i], got, salone[i]);
+                            std::process::exit(1);
+                        }
+                    }
+                }
+                drop(mine);
                 for r in 0..reps {
                     for k in 0..filters.len() {
                         // each thread walks the programs in its own order
@@ -89,6 +118,10 @@ fn main() {
             println!("MISMATCH a thread panicked");
             std::process::exit(1);
         }
+    }
+    if format!("{shared}") != original {
+        println!("MISMATCH the shared value changed: {shared} (was {original})");
+        std::process::exit(1);
     }
     println!("simmiri: {threads} threads x {reps} repetitions x {count} programs: all streams equal the sequential ones");
 }
